@@ -240,3 +240,164 @@ Proof.
     destruct (rr_out r) as [sent T1| |c|]; try exact HZ.
     rewrite (HO sent T1 eq_refl). simpl. rewrite HZ. simpl. apply IH.
 Qed.
+
+(* ---- send side: the budget through the sendmsg loop and through send_all *)
+Section RetryCont.
+  Variables St R : Type.
+  Variable cb : St -> cbres R * St * Z.
+
+  (* the timeout _retry hands back continues the same budget *)
+  Lemma retry_loop_budget_cont : forall fuel ri t st sels v T',
+    ri_ok ri ->
+    rr_out (retry_loop cb fuel ri (Some t) st sels) = ROk v T' ->
+    exists t', T' = Some t' /\
+      forall ws2, budget_ok t' ws2 -> budget_ok t (rr_waits (retry_loop cb fuel ri (Some t) st sels) ++ ws2).
+  Proof.
+    induction fuel as [|f IH]; intros ri t st sels v T' Hri; simpl; [discriminate|].
+    destruct (cb st) as [[r st1] cost]. destruct r as [v0|w|c]; simpl; try discriminate.
+    - intro H; inversion H; subst. exists t. split; [reflexivity|]. intros ws2 H2; exact H2.
+    - destruct (t <=? 0) eqn:Et; simpl; [discriminate|]. apply Z.leb_gt in Et.
+      destruct (next_sel sels) as [a sels1].
+      assert (Hgen : forall req (isri : bool), 0 < req <= t ->
+        rr_out (if negb (sa_ready a) && negb isri
+                then mk_rres RTimeout st1 sels1 (cost + sa_el a)
+                       [{| w_write := w; w_req := Some req; w_ready := sa_ready a; w_el := sa_el a |}] 1
+                else rr_add (cost + sa_el a)
+                       [{| w_write := w; w_req := Some req; w_ready := sa_ready a; w_el := sa_el a |}]
+                       (retry_loop cb f ri (recompute (Some t) (sa_el a)) st1 sels1)) = ROk v T' ->
+        exists t', T' = Some t' /\
+          forall ws2, budget_ok t' ws2 ->
+            budget_ok t (rr_waits (if negb (sa_ready a) && negb isri
+                then mk_rres RTimeout st1 sels1 (cost + sa_el a)
+                       [{| w_write := w; w_req := Some req; w_ready := sa_ready a; w_el := sa_el a |}] 1
+                else rr_add (cost + sa_el a)
+                       [{| w_write := w; w_req := Some req; w_ready := sa_ready a; w_el := sa_el a |}]
+                       (retry_loop cb f ri (recompute (Some t) (sa_el a)) st1 sels1)) ++ ws2)).
+      { intros req isri Hreq. destruct (negb (sa_ready a) && negb isri); simpl; [discriminate|].
+        intro Hout. destruct (IH ri (Z.max 0 (t - sa_el a)) st1 sels1 v T' Hri Hout) as (t' & Ht' & Hc).
+        exists t'. split; [assumption|]. intros ws2 H2.
+        split; [lia|]. split; [exists req; split; [reflexivity|lia]|].
+        apply budget_ok_max. apply Hc. exact H2. }
+      destruct ri as [x|]; simpl in *.
+      + destruct (t <=? x) eqn:Ex; simpl.
+        * apply (Hgen t false). lia.
+        * apply Z.leb_gt in Ex. apply (Hgen x true). lia.
+      + apply (Hgen t false). lia.
+  Qed.
+
+  Lemma retry_budget_cont : forall fuel ri t st sels v T',
+    ri_ok ri ->
+    rr_out (retry cb fuel ri (Some t) st sels) = ROk v T' ->
+    exists t', T' = Some t' /\
+      forall ws2, budget_ok t' ws2 -> budget_ok t (rr_waits (retry cb fuel ri (Some t) st sels) ++ ws2).
+  Proof.
+    intros fuel ri t st sels v T' Hri. unfold retry. destruct (tmo_neg (Some t)); [simpl; discriminate|].
+    apply retry_loop_budget_cont; assumption.
+  Qed.
+End RetryCont.
+
+Lemma sendmsg_loop_budget : forall F ri iov fuel bufs t s sels,
+  ri_ok ri -> budget_ok t (sr_waits (sendmsg_loop F ri iov fuel bufs (Some t) s sels)).
+Proof.
+  intros F ri iov fuel. induction fuel as [|f IH]; intros bufs t s sels Hri.
+  - destruct bufs; exact I.
+  - destruct bufs as [|b0 bufs']; [exact I|].
+    change (sendmsg_loop F ri iov (S f) (b0 :: bufs') (Some t) s sels) with
+      (let r := retry (sock_sendmsg iov (b0 :: bufs')) F ri (Some t) s sels in
+       match rr_out r with
+       | ROk sent T1 => sr_add (rr_dt r) (rr_waits r) (rr_calls r)
+                               (sendmsg_loop F ri iov f (adjust_leftover (b0 :: bufs') sent) T1 (rr_st r) (rr_sels r))
+       | o => sres_of_fail r (rout_fail o)
+       end).
+    cbv zeta.
+    pose proof (retry_budget_proof _ _ (sock_sendmsg iov (b0 :: bufs')) F ri t s sels Hri) as HB.
+    pose proof (retry_budget_cont _ _ (sock_sendmsg iov (b0 :: bufs')) F ri t s sels) as HC.
+    set (r := retry (sock_sendmsg iov (b0 :: bufs')) F ri (Some t) s sels) in *.
+    destruct (rr_out r) as [sent T1| |c|]; try exact HB.
+    destruct (HC sent T1 Hri eq_refl) as (t' & Ht' & Hc). subst T1.
+    simpl. apply Hc. apply IH. exact Hri.
+Qed.
+
+(* sending socket: call costs are not negative *)
+Definition send_cost (a : sockans) : Z := match a with SSent _ c => c | SBlock _ c => c | SErr c => c end.
+Definition send_costs_ok (s : sock) : Prop := Forall (fun a => 0 <= send_cost a) (sk_script s).
+
+Lemma sock_send_inv : forall data s,
+  send_costs_ok s -> 0 <= snd (sock_send data s) /\ send_costs_ok (snd (fst (sock_send data s))).
+Proof.
+  intros data [script wire] H. unfold send_costs_ok, sock_send in *. simpl in *.
+  destruct script as [|a rest]; simpl.
+  - split; [lia|constructor].
+  - inversion H as [|? ? Ha Hr]; subst. destruct a; simpl in *; split; assumption.
+Qed.
+
+Lemma send_all_loop_budget : forall F ri fuel rest t s sels,
+  ri_ok ri -> send_costs_ok s ->
+  budget_ok t (sr_waits (send_all_loop F ri fuel rest (Some t) s sels)).
+Proof.
+  intros F ri fuel. induction fuel as [|f IH]; intros rest t s sels Hri Hc.
+  - destruct rest; exact I.
+  - destruct rest as [|b rest']; [exact I|].
+    change (send_all_loop F ri (S f) (b :: rest') (Some t) s sels) with
+      (let r := send F ri (b :: rest') (Some t) s sels in
+       match rr_out r with
+       | ROk sent _ => sr_add (rr_dt r) (rr_waits r) (rr_calls r)
+                              (send_all_loop F ri f (skipn sent (b :: rest')) (recompute (Some t) (rr_dt r)) (rr_st r) (rr_sels r))
+       | o => sres_of_fail r (rout_fail o)
+       end).
+    cbv zeta. unfold send.
+    pose proof (retry_budget_proof _ _ (sock_send (b :: rest')) F ri t s sels Hri) as HB.
+    pose proof (retry_dt_ge _ _ (sock_send (b :: rest')) send_costs_ok (sock_send_inv (b :: rest')) F ri (Some t) s sels Hc)
+      as [HD HI].
+    set (r := retry (sock_send (b :: rest')) F ri (Some t) s sels) in *.
+    destruct (rr_out r) as [sent T1| |c|]; try exact HB.
+    simpl. apply budget_ok_app; [exact HB|].
+    apply budget_ok_mono with (t := t - rr_dt r); [lia|].
+    apply budget_ok_max. apply IH; assumption.
+Qed.
+
+Lemma send_all_budget : forall F ri fuel data t s sels,
+  ri_ok ri -> send_costs_ok s ->
+  budget_ok t (sr_waits (send_all F ri fuel data (Some t) s sels)).
+Proof.
+  intros. destruct data as [|b d].
+  - simpl. unfold send.
+    pose proof (retry_budget_proof _ _ (sock_send []) F ri t s sels H) as HB.
+    destruct (rr_out (retry (sock_send []) F ri (Some t) s sels)); exact HB.
+  - apply send_all_loop_budget; assumption.
+Qed.
+
+(* op_budget for send_all_from_iterable on every path *)
+Lemma send_iter_budget : forall drop_empty has_sendmsg iov F fuel ri chunks t s sels,
+  ri_ok ri -> send_costs_ok s ->
+  budget_ok t (sr_waits (send_iter drop_empty has_sendmsg iov F fuel ri chunks (Some t) s sels)).
+Proof.
+  intros. unfold send_iter. destruct ((iov <=? 0) || negb has_sendmsg).
+  - apply send_all_budget; assumption.
+  - apply sendmsg_loop_budget; assumption.
+Qed.
+
+(* op_budget for TCPNetworkClient.send_packet: lock wait + selector waits *)
+Lemma client_send_budget : forall drop_empty has_sendmsg iov F fuel ri chunks t l s sels,
+  ri_ok ri -> send_costs_ok s ->
+  budget_ok t (lock_waits (lock_with_timeout (Some t) l)
+               ++ sr_waits (cs_sr (client_send drop_empty has_sendmsg iov F fuel ri chunks (Some t) l s sels))).
+Proof.
+  intros drop_empty has_sendmsg iov F fuel ri chunks t l s sels Hri Hc.
+  pose proof (lock_budget t l) as (HB & HS & HT). cbv zeta in HB, HS, HT.
+  unfold client_send.
+  set (k := lock_with_timeout (Some t) l) in *.
+  destruct (lk_T k) as [[t1|]|] eqn:Ek.
+  - simpl. apply budget_ok_app; [exact HB|].
+    assert (HR : budget_ok t1 (sr_waits (send_iter drop_empty has_sendmsg iov F fuel ri chunks (Some t1) s sels)))
+      by (apply send_iter_budget; assumption).
+    assert (HW : sr_waits (convert_sr (send_iter drop_empty has_sendmsg iov F fuel ri chunks (Some t1) s sels))
+                 = sr_waits (send_iter drop_empty has_sendmsg iov F fuel ri chunks (Some t1) s sels)).
+    { unfold convert_sr. destruct (sr_out (send_iter drop_empty has_sendmsg iov F fuel ri chunks (Some t1) s sels)); reflexivity. }
+    rewrite HW.
+    destruct HT as [HT|[HT HT0]].
+    + subst t1. apply budget_ok_mono with (t := t - lk_dt k); [lia|]. apply budget_ok_max. exact HR.
+    + subst t1. apply budget_ok_mono with (t := t); [lia|]. exact HR.
+  - contradiction.
+  - simpl. rewrite app_nil_r. exact HB.
+Qed.
